@@ -40,6 +40,12 @@ def region(conds):
                     and c.l.size == 8 and c.r.signed and not isinstance(c.r, D.Const) and c.r.size <= 4:
                 return ("R-MIXCMP: ordering comparison of an unsigned 8-byte left operand with a signed right "
                         "operand of at most 4 bytes")
+    for cond in conds:
+        for c in walk(cond):
+            sides = (c.l, c.r)
+            if any(isinstance(s, D.Reg) and s.kind == "sw" for s in sides) and any(getattr(s, "fixed", False) for s in sides):
+                return ("R-VIEW32-CMP: a signed 32-bit register view compared with a fixed-point operand (the "
+                        "scaled register is not sign-extended to 64 bits; same root as C01's R-VIEW32)")
     return None
 
 
